@@ -10,6 +10,16 @@ def ordCh : Ordering → Char
   | .lt => 'l' | .eq => 'e' | .gt => 'g'
 def bCh (b : Bool) : Char := if b then '1' else '0'
 
+/-- the calls a `std::hash::Hasher` receives for one event of `termHash`, as the harness's recording hasher
+logs them: derived `TermKind::hash` = `write_isize`, `str::hash` = `write(bytes)` + `write_u8(0xff)`,
+`char::hash` = `write_u32` -/
+def evStr : HashEv → String
+  | .disc n => "is" ++ toString n
+  | .str s => "w" ++ hexOfChars s ++ ".u8_255"
+  | .chr c => "u32_" ++ toString c.toNat
+
+def hashSeq (t : Term) : String := ".".intercalate ((termHash t).map evStr)
+
 /-- split a token list at "|" -/
 def splitBar (toks : List String) : List (List String) :=
   toks.foldr (fun t acc => if t == "|" then [] :: acc else
@@ -52,7 +62,8 @@ def handle (line : String) : String :=
       let n := depth a + 1
       reply (pairFields "" a b (termEq a b) (termCmp a b) (termHash a == termHash b) ++
         pairFields "s" a b (eqI termImpl termImpl n a b) (cmpI termImpl termImpl n a b)
-          (hashI termImpl n a == hashI termImpl (depth b + 1) b) ++ [kv "shx" "1", kv "sym" "1", kv "swap" "1"] ++
+          (hashI termImpl n a == hashI termImpl (depth b + 1) b) ++ [kv "shx" "1", kv "sym" "1", kv "swap" "1",
+            kvB "hseq" (termHash a == termHash b), kvB "hfx" (termHash a == termHash b)] ++
         (if a.kind != b.kind then
            [kv "xk" (ordStr (termCmp a b)),
             kv "o.xk" (if a.kind.rank < b.kind.rank then "lt" else "gt")]
@@ -63,7 +74,7 @@ def handle (line : String) : String :=
     | some [t] =>
       let exact := fromTerm t == t && fromImpl termImpl (depth t + 1) t == t &&
         genericLiteral? t == (if t.kind == .literal then some t else none)
-      reply [kv "exact" (if exact then "1" else "0"), kv "o.conv" "ok"]
+      reply [kv "exact" (if exact then "1" else "0"), kv "o.conv" "ok", kv "hashseq" (hashSeq t)]
     | _ => "bad-op"
   | "t" :: rest =>
     match parseTerms rest with
@@ -84,7 +95,7 @@ def handle (line : String) : String :=
       let e := nsTermEq ns suf b
       reply [kvB "nseq" e, kvB "nseq_rev" (termEq b full),
              kv "nscmp" (ordStr (termCmp full b)),
-             kvB "nsheq" (termHash full == termHash b),
+             kvB "nsheq" (termHash full == termHash b), kvB "nshseq" (termHash full == termHash b),
              kvB "o.nseq" (termEq full b), kvB "o.nseq_rev" (termEq full b)]
     | _, _, _ => "bad-op"
   | ["w", k, ha, hb] =>
